@@ -80,7 +80,9 @@ def oracle_stepwise(res, case, sk, ops, tmp, keypath):
                     res.violate("C01:accepted-but-invalid", "an assignment was accepted although the field rejects the value", dict(case, at=n, op=op))
                 got = cfg[op["key"]]
                 known, exact = F.independent_normal(sf["field"], a["py"])
-                if known and not (type(got) is int and got == exact):
+                if known and exact is F.REJECTED:
+                    res.violate("C01:accepted-but-invalid", "text that is not a whole number in base ten was accepted by an integer field", dict(case, at=n, op=op))
+                elif known and not (type(got) is int and got == exact):
                     res.violate("C01:readback-not-exact", "reading an integer field after an accepted assignment does not yield the whole number that was assigned",
                                 dict(case, at=n, op=op, got=F.enc_val(got), want=F.enc_val(exact)))
                 if want is not None and sf["field"]["k"] != "challenge" and not c05.same(got, want):
@@ -270,7 +272,9 @@ def boundary_stream(ctx, res, n):
                 res.case(stable([f, name, F.enc_val(v)]) if outcome == "ok" else None, sample=case if done < 2 and name == "attr" else None,
                          kind="boundary:%s:%s:%s" % (f["k"], name, outcome))
                 known, exact = F.independent_normal(f, v)
-                if outcome == "ok" and known:
+                if outcome == "ok" and known and exact is F.REJECTED:
+                    res.violate("C01:holds-undeclared:" + name, "text that is not a whole number in base ten was accepted by an integer field", dict(case))
+                elif outcome == "ok" and known:
                     hs = held()
                     if not hs or not (type(hs[-1]) is int and hs[-1] == exact):
                         res.violate("C01:readback-not-exact", "reading an integer field after an accepted assignment does not yield the whole number that was assigned",
@@ -339,6 +343,47 @@ def fixed_stream(ctx, res):
                                     "(the held path is the one resolved against the start directory)", case)
     finally:
         os.chdir(cwd)
+    # (c) buffers that are not bytes (bytearray, memoryview, array) offered to a bytes field on every route: if they are taken at all, what is
+    # held is an immutable `bytes` object of the configuration's own — changing the caller's buffer afterwards changes nothing
+    import array
+    for enc in ("base64", "hex"):
+        for bname, mkbuf in (("bytearray", lambda: bytearray(b"buffer-1")), ("memoryview", lambda: memoryview(bytearray(b"buffer-2"))), ("empty-bytearray", lambda: bytearray()),
+                             ("array", lambda: array.array("B", b"buffer-3"))):
+            for route in ("attr", "dotted", "ctor", "load", "list", "dict"):
+                s = cc.Schema()
+                s.a.b.x = cc.BytesField(encoding=enc)
+                s.lst = cc.ListField(cc.BytesField(encoding=enc), default=lambda: [])
+                s.dct = cc.DictField(cc.StringField(), cc.BytesField(encoding=enc), default=lambda: {})
+                buf = mkbuf()
+                try:
+                    cfg = s(a={"b": {"x": buf}}) if route == "ctor" else s()
+                    if route == "attr":
+                        cfg.a.b.x = buf
+                    elif route == "dotted":
+                        cfg["a.b.x"] = buf
+                    elif route == "load":
+                        cfg.load_tree({"a": {"b": {"x": buf}}})
+                    elif route == "list":
+                        cfg.lst.append(buf)
+                    elif route == "dict":
+                        cfg.dct["k"] = buf
+                    held = cfg.lst[0] if route == "list" else cfg.dct["k"] if route == "dict" else cfg.a.b.x
+                except Exception:  # noqa
+                    res.case(None, kind="fixed:buffer:rejected")
+                    continue
+                res.case(stable([enc, bname, route]), kind="fixed:buffer:accepted")
+                snapshot = bytes(held) if held is not None else None
+                try:
+                    target = buf.obj if isinstance(buf, memoryview) else buf
+                    if len(target):
+                        target[0] = (target[0] + 1) % 256
+                except Exception:  # noqa
+                    pass
+                again = cfg.lst[0] if route == "list" else cfg.dct["k"] if route == "dict" else cfg.a.b.x
+                if held is not None and (type(held) is not bytes or bytes(again) != snapshot):
+                    res.violate("C01:holds-undeclared:buffer", "a bytes field holds a buffer that is not an immutable bytes object of its own (its type constraint is `bytes`)",
+                                {"stream": "fixed", "what": "buffer", "buffer": bname, "route": route, "encoding": enc, "held_type": type(held).__name__,
+                                 "changed_with_callers_buffer": bytes(again) != snapshot})
     for kind, mk, custom, values in (("int", lambda v: cc.IntField(validator=v), F.CATALOGUE["clamp0"], [-5, -1, 0, 3, "-7"]),
                                      ("string", lambda v: cc.StringField(validator=v), F.CATALOGUE["blank"], ["#c", "# x", "keep", ""])):
         for v in values:
